@@ -6,13 +6,15 @@ use crate::common::*;
 use image_webp::verif_hooks as hk;
 use serde_json::json;
 
-#[derive(Clone, Copy, Debug)]
+#[derive(Clone, Debug)]
 enum Tok {
     Bool(u8),
     Flag,
     Lit(u8),
     Signed(u8),
     Tree(u8),
+    /// tree shape (0..4) with caller-supplied probabilities
+    TreeP(u8, Vec<u8>),
 }
 
 fn parse_prog(s: &str) -> Vec<Tok> {
@@ -21,6 +23,10 @@ fn parse_prog(s: &str) -> Vec<Tok> {
     }
     s.split(',')
         .map(|t| {
+            if let Some(rest) = t.strip_prefix('T') {
+                let (k, ps) = rest.split_once(':').unwrap_or((rest, ""));
+                return Tok::TreeP(k.parse().unwrap_or(0), ps.split('.').filter_map(|x| x.parse().ok()).collect());
+            }
             let (k, n) = t.split_at(1);
             let n: u32 = n.parse().unwrap_or(0);
             match k {
@@ -44,6 +50,7 @@ fn show_prog(p: &[Tok]) -> String {
             Tok::Lit(n) => format!("l{n}"),
             Tok::Signed(n) => format!("s{n}"),
             Tok::Tree(k) => format!("t{k}"),
+            Tok::TreeP(k, ps) => format!("T{k}:{}", ps.iter().map(|p| p.to_string()).collect::<Vec<_>>().join(".")),
         })
         .collect::<Vec<_>>()
         .join(",")
@@ -61,12 +68,13 @@ fn impl_run(data: Option<&[u8]>, prog: &[Tok]) -> String {
         };
         let mut out = Vec::new();
         for t in prog {
-            let v: i64 = match *t {
-                Tok::Bool(p) => d.read_bool(p) as i64,
+            let v: i64 = match t {
+                Tok::Bool(p) => d.read_bool(*p) as i64,
                 Tok::Flag => d.read_flag() as i64,
-                Tok::Lit(n) => d.read_literal(n) as i64,
-                Tok::Signed(n) => d.read_optional_signed_value(n) as i64,
-                Tok::Tree(k) => d.read_tree(k) as i64,
+                Tok::Lit(n) => d.read_literal(*n) as i64,
+                Tok::Signed(n) => d.read_optional_signed_value(*n) as i64,
+                Tok::Tree(k) => d.read_tree(*k) as i64,
+                Tok::TreeP(k, ps) => d.read_tree_with_probs(*k, ps) as i64,
             };
             out.push(format!("{v}{}", if d.past_eof() { "!" } else { "" }));
         }
@@ -106,7 +114,7 @@ fn agree_until_exhausted(a: &str, b: &str) -> bool {
 }
 
 fn fixed_programs() -> Vec<Vec<Tok>> {
-    let rep = |t: Tok, n: usize| vec![t; n];
+    let rep = |t: Tok, n: usize| vec![t.clone(); n];
     let mut v = vec![
         rep(Tok::Flag, 44),
         rep(Tok::Bool(1), 44),
@@ -121,6 +129,11 @@ fn fixed_programs() -> Vec<Vec<Tok>> {
         parse_prog("t1,t2,t1,t2,t1,t2,t1,t2,t1,t2,t1,t2,t1,t2,t1,t2"),
         parse_prog("l7,l0,l1,l2,l3,l4,l5,l6,l7,l8,b200,b30,f"),
     ];
+    // tree reads whose branches all have extreme probabilities: a single request can shift in more
+    // than 24 bits, i.e. refill twice (chunk then trailing bytes)
+    v.push(rep(Tok::TreeP(4, vec![1; 11]), 8));
+    v.push(rep(Tok::TreeP(4, vec![255; 11]), 8));
+    v.push(rep(Tok::TreeP(3, vec![1, 255, 1, 255, 1, 255, 1, 255, 1]), 8));
     v.push(parse_prog("b37,b219,b64,b192,b5,b251,b100,b156,b37,b219,b64,b192,b5,b251,b100,b156,b37,b219,b64,b192,b5,b251,b100,b156,b37,b219,b64,b192,b5,b251,b100,b156,b37,b219,b64,b192,b5,b251,b100,b156"));
     v
 }
@@ -132,7 +145,13 @@ fn random_prog(rng: &mut Rng, len: usize) -> Vec<Tok> {
             4 => Tok::Flag,
             5 | 6 => Tok::Lit(rng.below(9) as u8),
             7 => Tok::Signed(rng.range(1, 7) as u8),
-            _ => Tok::Tree(rng.below(4) as u8),
+            8 => Tok::Tree(rng.below(4) as u8),
+            _ => {
+                let k = rng.below(5) as u8;
+                let style = rng.below(4);
+                let ps: Vec<u8> = (0..11).map(|_| match style { 0 => 1, 1 => 255, 2 => *rng.pick(&[0u8, 1, 2, 254, 255]), _ => rng.byte() }).collect();
+                Tok::TreeP(k, ps)
+            }
         })
         .collect()
 }
@@ -198,7 +217,7 @@ pub fn run(o: &Opts) -> Report {
         Judge { rep: &mut rep }.one(data.as_deref(), &prog, &reply);
         return rep;
     }
-    rep.rule = "byte strings: ALL of length 0..2 (quick) / 0..3 (thorough, digest per first byte) x fixed request programs crossing every chunk/tail boundary and running into exhaustion; random strings of length 3..70 x random programs (bools with any probability incl. 0,1,128,255, flags, literals 0..8 bits, optional signed, the crate's four tree shapes); every run compared with the Lean model of the code (all values + check outcome) and with the RFC 6386 decoder (values until exhaustion + exhaustion point). distinct_nontrivial = distinct (data, program) pairs with a non-empty program".into();
+    rep.rule = "byte strings: ALL of length 0..2 (quick) / 0..3 (thorough, digest per first byte) x 16 fixed request programs (incl. tree reads with all-extreme probabilities, which refill twice within one request) crossing every chunk/tail boundary and running into exhaustion; random strings of length 3..70 x random programs (bools with any probability incl. 0,1,128,255, flags, literals 0..8 bits, optional signed, the crate's five tree shapes with their own or random/extreme probabilities); every run compared with the Lean model of the code (all values + check outcome) and with the RFC 6386 decoder (values until exhaustion + exhaustion point). distinct_nontrivial = distinct (data, program) pairs with a non-empty program".into();
     let progs = fixed_programs();
     let mut cases: Vec<(Option<Vec<u8>>, Vec<Tok>)> = Vec::new();
     // exhaustive: lengths 0, 1, 2
@@ -221,6 +240,17 @@ pub fn run(o: &Opts) -> Report {
     cases.push((None, parse_prog("l8,t0,b3,s4")));
     // corner recorded in DESIGN (leading 0xFF, register overflow after the third chunk)
     cases.push((Some(unhex("ff000000ffffff8100000000000000000000")), vec![Tok::Flag; 64]));
+    // all-zero / all-one strings of every length 3..12 against the extreme-probability tree programs
+    for len in 3..=12usize {
+        for fill in [0x00u8, 0xff, 0x80] {
+            for pi in 13..16 {
+                let mut d = vec![fill; len];
+                d[0] = 0;
+                cases.push((Some(d.clone()), progs[pi].clone()));
+                for k in 4..len { let mut e = vec![0u8; len]; for b in e.iter_mut().skip(k) { *b = 0xff; } cases.push((Some(e), progs[pi].clone())); }
+            }
+        }
+    }
     // random
     let mut rng = Rng::new(o.seed);
     let n = if o.thorough() { 400_000 } else { 60_000 };
@@ -264,11 +294,11 @@ pub fn run(o: &Opts) -> Report {
         }
     }
     rep.exhaustive = true;
-    rep.exhaustive_note = "all byte strings of length 0..2 x 13 fixed programs".into();
+    rep.exhaustive_note = "all byte strings of length 0..2 x 16 fixed programs".into();
 
     if o.thorough() {
         // length 3 exhaustive, digest per first byte, for a subset of the fixed programs
-        let sel = [0usize, 2, 6, 7, 9, 12];
+        let sel = [0usize, 2, 6, 7, 9, 13, 15];
         let mut blines = Vec::new();
         for &pi in &sel {
             for b0 in 0..256 {
